@@ -161,7 +161,7 @@ def derivedFields (c : ClassDef) : DeriveOp → List (String × Member)
 /-- the `_required` list an operator writes into the new class dict -/
 def derivedRequired (c : ClassDef) : DeriveOp → List String
   | .partialOf => []
-  | .allRequired => (c.allFields.filter fun p => !p.2.hasDefault).map (·.1)
+  | .allRequired => (c.allFields.filter fun p => p.2.needsValue).map (·.1)
   | .extend => c.required
   | .omit names => c.required.filter fun x => !names.contains x
   | .pick names => c.required.filter fun x => names.contains x
@@ -177,9 +177,7 @@ theorem deriveSrc_ok {c : ClassDef} {nm : String} {op : DeriveOp} {src : ClassSr
     src = derivedSrc c nm (derivedFields c op) (derivedRequired c op) := by
   cases op <;> simp only [deriveSrc] at h
   · cases h; rfl
-  · split at h
-    · cases h
-    · cases h; rfl
+  · cases h; rfl
   · cases h; rfl
   · split at h
     · cases h; rfl
@@ -220,7 +218,7 @@ theorem build_derived {w : World} (hS : HasStructure w) (c : ClassDef) (nm : Str
     let d := build w (derivedSrc c nm fields req)
     d.allFields = updateAll [] fields ∧ d.mro = [nm, "Structure"] ∧ d.name = nm
     ∧ d.required = dedupStr (req.filter fun n => !(fields.any fun p => p.1 == n && p.2.hasDefault))
-    ∧ d.ignoreNone = c.ownIgnoreNone.getD false ∧ d.bases = ["Structure"] := by
+    ∧ d.ignoreNone = c.ignoreNone ∧ d.bases = ["Structure"] := by
   have hS' : w.find "Structure" = some (World.builtin "Structure" [] false) := hS
   have hbd : baseDefs w (derivedSrc c nm fields req) = [World.builtin "Structure" [] false] := by
     simp [baseDefs, derivedSrc, hS']
@@ -249,7 +247,7 @@ theorem build_derived {w : World} (hS : HasStructure w) (c : ClassDef) (nm : Str
   · show ((derivedSrc c nm fields req).ignoreNone.orElse fun _ =>
         inheritedOpt w (·.ownIgnoreNone) (mroTail w _)).getD false = _
     rw [htail]
-    simp only [inheritedOpt, hS', World.builtin, Option.bind]
-    cases hi : c.ownIgnoreNone <;> simp [derivedSrc, hi]
+    simp only [inheritedOpt, hS', World.builtin, Option.bind, ClassDef.ignoreNone]
+    cases hi : c.ignoreNoneAttr <;> simp [derivedSrc, hi]
 
 end Typedpy
